@@ -29,6 +29,8 @@ class ReconcileMonitor(Monitor):
         self.pre_crash = None
         self.applied_open = 0
         self.shown = set()  # bet ids that the current incarnation has been shown by the order stream
+        self.seen_book_after_adoption = {}
+        self.created_by_ocm = {}
 
     def on_api_applied(self, n, method, request, response):
         self.applied_open += 1
@@ -45,6 +47,19 @@ class ReconcileMonitor(Monitor):
             for co in ev.event or []:
                 for o in co.orders:
                     self.shown.add(o.bet_id)
+                    mid = getattr(o, "market_id", None)
+                    if mid is not None and self.run.fw.markets.markets.get(mid) is None:
+                        self.created_by_ocm[mid] = True
+
+    def on_strategy_call(self, strategy, market, kind):
+        # the market a strategy is handed is the one orders are adopted into (the registered object), whichever of
+        # the order stream and the market stream created it first
+        reg = self.run.fw.markets.markets.get(market.market_id)
+        if reg is not market:
+            self.violate(self.P, "C11.adopt" if self.restarts else "C11.agree", "strategy-handed-a-market-that-is-not-the-registered-one", strategy=strategy.name, market=market.market_id, callback=kind, registered_has_book=bool(reg is not None and reg.market_book is not None), orders_in_registered=len(reg.blotter) if reg is not None else None, orders_in_handed=len(market.blotter))
+        elif self.restarts and market.market_book is not None and len(market.blotter) and not self.seen_book_after_adoption.get(market.market_id):
+            self.seen_book_after_adoption[market.market_id] = True
+            self.res.probes["c11.market_created_by_order_stream_then_book" if self.created_by_ocm.get(market.market_id) else "c11.market_created_by_book_then_adoption"] += 1
 
     def on_restart(self, fw):
         self.restarts += 1
